@@ -1286,12 +1286,27 @@ func (fc *FnCtx) inlineCall(st *State, call *ast.CallExpr, f *types.Func, decl *
 	}
 	saveDef := st.defers
 	st.defers = nil
+	// a callee that defers a literal calling recover() is a recover scope, exactly like such a literal executed inline
+	opensRecover := false
+	if len(decl.Body.List) > 0 {
+		if d, ok := decl.Body.List[0].(*ast.DeferStmt); ok {
+			if dl, ok := ast.Unparen(d.Call.Fun).(*ast.FuncLit); ok && containsRecover(dl) {
+				opensRecover = true
+			}
+		}
+	}
+	if opensRecover {
+		st.recov++
+	}
 	outs := child.execBlock(st, decl.Body.List)
 	var ends []*State
 	var vals [][]Val
 	for _, o := range outs {
 		switch o.kind {
 		case oNormal, oReturn:
+			if opensRecover {
+				o.st.recov--
+			}
 			for _, o2 := range child.runDefers(o.st, 0) {
 				o2.st.defers = saveDef
 				// read named results after defers when the return was bare
@@ -1300,7 +1315,28 @@ func (fc *FnCtx) inlineCall(st *State, call *ast.CallExpr, f *types.Func, decl *
 				vals = append(vals, vs)
 			}
 		case oPanic:
-			fc.unsupp(call.Pos(), "panic escaping inlined %s", f.Name())
+			if !opensRecover {
+				fc.unsupp(call.Pos(), "panic escaping inlined %s", f.Name())
+			}
+			// the deferred recover() swallows the panic: the function returns the current values of its named results
+			// (the zero value for unnamed ones)
+			o.st.recov--
+			for _, o2 := range child.runDefers(o.st, 0) {
+				o2.st.defers = saveDef
+				var vs []Val
+				for _, r := range child.results {
+					if v, ok := o2.st.vars[r]; ok && r.Name() != "" && r.Name() != "_" {
+						if child.isBoxed(r) {
+							v = child.deref(o2.st, v)
+						}
+						vs = append(vs, Val{v.T, r.Type()})
+					} else {
+						vs = append(vs, Val{fc.smt.zero(r.Type()), r.Type()})
+					}
+				}
+				ends = append(ends, o2.st)
+				vals = append(vals, vs)
+			}
 		}
 	}
 	out := fc.mergeReturns(st, ends, vals, child.results, call)
